@@ -11,7 +11,12 @@ def rescan(ci, d):
     """Independent, range-checked reading of a returned diagram: no slicing tricks and
     no use of the library's own == (objects are compared as (name, winding) pairs, boxes
     as canonical tuples).  Returns None when well-typed, else what is wrong."""
-    T = ci.canon_ty
+    def T(t):
+        return [(repr(x.name), getattr(x, "z", 0)) for x in t.objects]
+
+    def B(b):
+        return (type(b).__name__, repr(b.name), T(b.dom), T(b.cod), bool(getattr(b, "is_dagger", False)),
+                repr(getattr(b, "data", None)))
     dom, cod = T(d.dom), T(d.cod)
     boxes, offs, layers = d.boxes, d.offsets, d.layers
     if len(boxes) != len(offs) or len(boxes) != len(layers.boxes):
@@ -30,11 +35,7 @@ def rescan(ci, d):
             return "box %d does not find its domain at offset %d" % (k, off)
         if T(left) != scan[:off] or T(right) != scan[off + len(bdom):]:
             return "layer %d disagrees with the reading of boxes and offsets" % k
-        try:
-            same = ci.canon_box(lbox) == ci.canon_box(box)
-        except AssertionError:
-            same = lbox == box
-        if not same:
+        if B(lbox) != B(box):
             return "layer %d carries a different box" % k
         scan = scan[:off] + bcod + scan[off + len(bdom):]
     if scan != cod:
